@@ -1,6 +1,9 @@
 package schema
 
-import "fmt"
+import (
+	"fmt"
+	"strings"
+)
 
 type Named struct {
 	Name string
@@ -150,6 +153,28 @@ func ConstructFamily() []Named {
 		for i, l := range lits {
 			add(fmt.Sprintf("const/%s/%d", t, i), &Def{Kind: "const", Name: "cst1", CType: t, Lit: l})
 		}
+	}
+	// integer literal spellings: every final hex digit in both cases ('e' is also the exponent
+	// letter of float literals), one-digit literals, negative hex
+	{
+		var lower, upper, single []Option
+		for i, d := range "0123456789abcdef" {
+			lower = append(lower, Option{Name: fmt.Sprintf("Low%d", i), Lit: "0x1" + string(d)})
+			upper = append(upper, Option{Name: fmt.Sprintf("Upp%d", i), Lit: "0x2" + strings.ToUpper(string(d))})
+			if i > 0 {
+				single = append(single, Option{Name: fmt.Sprintf("One%d", i), Lit: "0x" + string(d)})
+			}
+		}
+		add("hex-final-digit/enum-lower", &Def{Kind: "enum", Name: "Enm1", Base: "uint32", Options: lower})
+		add("hex-final-digit/enum-upper", &Def{Kind: "enum", Name: "Enm1", Base: "uint16", Options: upper})
+		add("hex-final-digit/enum-single", &Def{Kind: "enum", Name: "Enm1", Base: "byte", Options: single})
+		for i, c := range [][2]string{{"uint32", "0x1e"}, {"byte", "0xe"}, {"uint16", "0xfe"}, {"int32", "-0x1e"}, {"uint64", "0xeeeeeeeeeeeeeeee"}, {"int64", "0x7ffffffffffffffe"}, {"uint32", "0xE"}, {"int16", "0x1E"}} {
+			add(fmt.Sprintf("hex-final-digit/const-%d", i), &Def{Kind: "const", Name: "cst1", CType: c[0], Lit: c[1]})
+		}
+		add("hex-final-digit/opcode", &Def{Kind: "struct", Name: "Rec1", OpCode: &OpCode{Int: 0x1e, IntLit: "0x1e"}, Fields: []Field{f("alpha", Simple("int32"))}},
+			&Def{Kind: "message", Name: "Msg1", OpCode: &OpCode{Int: 0xdeadbeee, IntLit: "0xdeadbeee"}})
+		add("hex-final-digit/flags", &Def{Kind: "enum", Name: "Enm1", Base: "uint32", Flags: true, Options: []Option{{Name: "OptA", Expr: &Expr{Lit: "0x1e"}},
+			{Name: "OptB", Expr: &Expr{Op: "|", L: &Expr{Lit: "0xe0"}, R: &Expr{Lit: "0xe"}}}, {Name: "OptC", Expr: &Expr{Op: "<<", L: &Expr{Lit: "0xe"}, R: &Expr{Lit: "0xe"}}}}})
 	}
 	add("go_package", &Def{Kind: "const", Name: "go_package", CType: "string", Lit: `"github.com/acme/things"`}, st(f("alpha", Simple("int32"))))
 	add("opcode-int", &Def{Kind: "struct", Name: "Rec1", OpCode: &OpCode{Int: 4294967295, IntLit: "4294967295"}})
